@@ -93,6 +93,7 @@ check_C07() {
 check_C06() {
   build_proxy
   wire_part wire relay
+  wire_part multi multilisten
 }
 
 check_C01() {
